@@ -5,6 +5,42 @@
 #include <string>
 namespace flow = oneapi::tbb::flow;
 int main(int argc, char** argv) {
+    std::string job = argc > 1 ? argv[1] : "";
+    if (job.find("pop_reserved") != std::string::npos) {
+        // F10: plain buffer_node, ONE item, try_reserve then try_get: buffer_node::internal_pop -> pop_back ignores the reservation
+        flow::graph g; flow::buffer_node<int> b(g); b.try_put(1); g.wait_for_all();
+        int v = 0, w = 0; bool r = b.try_reserve(v), got = b.try_get(w);
+        if (r) b.try_consume();
+        g.wait_for_all();
+        b.try_put(2); g.wait_for_all();
+        int x = 0; bool got2 = b.try_get(x);
+        if (r && got) { std::printf("REPRODUCED class=reserved-item-popped buffer_node<int> holding {1}: try_reserve granted %d, then try_get ALSO returned %d (message handed out twice); after try_consume the buffer has head > tail: try_put(2) was accepted but try_get then %s\n", v, w, got2 ? "succeeded" : "FAILED (message 2 lost)"); return 0; }
+        std::printf("NOT-REPRODUCED\n"); return 0;
+    }
+    if (job.find("handle.") != std::string::npos) {
+        // a buffering node must offer the remaining items again after a reservation is consumed / released, a successor is added, or an item is put
+        for (int how = 0; how < 2; ++how) {
+            flow::graph g; flow::queue_node<int> q(g); std::atomic<int> got{0}, last{-1};
+            flow::function_node<int, int> f(g, flow::unlimited, [&](int v) { ++got; last = v; return v; });
+            q.try_put(1); q.try_put(2); g.wait_for_all();
+            int v = 0; bool r = q.try_reserve(v);
+            flow::make_edge(q, f); g.wait_for_all();
+            if (how == 0) q.try_consume(); else q.try_release();
+            g.wait_for_all();
+            int want = how == 0 ? 1 : 2;
+            if (r && got > want) { std::printf("REPRODUCED class=duplicate-delivery queue_node {1,2}: item 1 reserved by a consumer, successor f attached, reservation %s: f received %d messages although only %d remained for it\n", how == 0 ? "consumed" : "released", got.load(), want); return 0; }
+            if (r && got != want) { std::printf("REPRODUCED class=stuck-after-%s queue_node {1,2}: item 1 reserved, successor f attached, reservation %s: f received %d of %d remaining items; wait_for_all returned with an accepted message stuck in the queue\n", how == 0 ? "consume" : "release", how == 0 ? "consumed" : "released", got.load(), want); return 0; }
+        }
+        {   flow::graph g; flow::queue_node<int> q(g); std::atomic<int> got{0};
+            q.try_put(1); q.try_put(2); g.wait_for_all();
+            flow::function_node<int, int> f(g, flow::unlimited, [&](int v) { ++got; return v; });
+            flow::make_edge(q, f); g.wait_for_all();
+            if (got != 2) { std::printf("REPRODUCED class=stuck-after-register queue_node {1,2}: successor attached, %d of 2 items delivered\n", got.load()); return 0; }
+            q.try_put(3); g.wait_for_all();
+            if (got != 3) { std::printf("REPRODUCED class=stuck-after-put queue_node with a push successor: put 3, delivered %d of 3\n", got.load()); return 0; }
+        }
+        std::printf("NOT-REPRODUCED\n"); return 0;
+    }
     {   // two reservations on the same buffer_node must not both be granted
         flow::graph g; flow::buffer_node<int> b(g); b.try_put(100); b.try_put(200); g.wait_for_all();
         int v1 = 0, v2 = 0; bool r1 = b.try_reserve(v1), r2 = b.try_reserve(v2);
